@@ -305,18 +305,25 @@ class Spinner:
             self._timeout_call = self._reactor.callLater(
                 timeout, self._timed_out, function, timeout
             )
+            # The callbacks we hang on the function's Deferred only count
+            # while *this* run is spinning.  The Deferred can outlive the run
+            # (timeout, interrupt) and fire during a later one.
+            this_run = self._current_run = object()
+
             # Calling 'stop' on the reactor will make it impossible to
             # re-start the reactor.  Since the default signal handlers for
             # TERM, BREAK and INT all call reactor.stop(), we'll patch it over
             # with crash.  XXX: It might be a better idea to either install
             # custom signal handlers or to override the methods that are
             # Twisted's signal handlers.
-            real_stop, self._reactor.stop = self._reactor.stop, self._fake_stop
+            def fake_stop():
+                # Those handlers do not call reactor.stop, they queue it with
+                # callFromThread.  If this run is over before the reactor gets
+                # to the queued call, it must not crash the next run.
+                if self._current_run is this_run:
+                    self._fake_stop()
 
-            # The callbacks we hang on the function's Deferred only count
-            # while *this* run is spinning.  The Deferred can outlive the run
-            # (timeout, interrupt) and fire during a later one.
-            this_run = self._current_run = object()
+            real_stop, self._reactor.stop = self._reactor.stop, fake_stop
 
             def only_this_run(callback):
                 def guarded(result):
